@@ -5,7 +5,7 @@
    un-modelled glue and the per-stage contracts named below are established by the end-to-end tie, not proved. *)
 From Coq Require Import ZArith QArith List Bool String Arith.
 Import ListNotations.
-From AiuModel Require Import Base Pipeline Profile Suffix Schema C02Model C02_proofs.
+From AiuModel Require Import Base Pipeline Profile Suffix Schema C02Model C02_proofs TidMap TidMap_proofs.
 From AiuGen Require Import Registration Profiles.
 Local Open Scope string_scope.
 
@@ -78,6 +78,40 @@ Theorem C02_cleaners :
    post_names cl_tsall = ["calculate_stats_v2"; "sort_events"]).
 Proof. split; [exact cleaners_static|exact cleaners_post_names]. Qed.
 Print Assumptions C02_cleaners.
+
+(* (7) tid mapping (tid_mapping.py::map_tid_to_range, model TidMap.v): with the pre-configured range of 30 entries - or
+   any non-empty one - the stage raises for NO stream of thread ids, however many distinct ones a run has (before the
+   repair the 31st distinct tid of a run raised IndexError: 8 rank files with 4 threads each) *)
+Theorem C02_tid_mapping_total :
+  forall (size : nat) (start step : Z) (tids : list Z),
+    (0 < size)%nat -> tidmap_val size start step tids <> None.
+Proof. exact tidmap_total. Qed.
+Print Assumptions C02_tid_mapping_total.
+
+(* (8) ... and the numbers it hands out: the i-th distinct tid in order of first appearance gets start + i*step (also
+   beyond the pre-configured range), so equal tids share a lane and - for step <> 0 - different tids never do *)
+Theorem C02_tid_mapping_closed_form :
+  forall (size : nat) (start step : Z) (tids : list Z) (s' : tstate) (vs : list Z),
+    (0 < size)%nat -> t_run step (t_init size start step) tids = Some (s', vs) ->
+    NoDup (t_orig s') /\ (forall t, In t tids -> In t (t_orig s')) /\
+    Forall2 (fun t v => exists i, index_of t (t_orig s') = Some i /\ v = (start + Z.of_nat i * step)%Z) tids vs.
+Proof. exact tidmap_closed_form. Qed.
+Print Assumptions C02_tid_mapping_closed_form.
+
+Theorem C02_tid_mapping_injective :
+  forall (size : nat) (start step : Z) (tids vs : list Z) (i j : nat) (t t' v v' : Z),
+    (0 < size)%nat -> tidmap_val size start step tids = Some vs ->
+    nth_error tids i = Some t -> nth_error tids j = Some t' ->
+    nth_error vs i = Some v -> nth_error vs j = Some v' ->
+    (t = t' -> v = v') /\ (step <> 0%Z -> v = v' -> t = t').
+Proof. exact tidmap_injective. Qed.
+Print Assumptions C02_tid_mapping_injective.
+
+(* non-vacuity: 33 distinct tids through the shipped configuration (30, 1000, 100): the 31st..33rd get 4000, 4100, 4200 *)
+Example C02_tid_mapping_beyond_range :
+  tidmap_val 30 1000 100 (map Z.of_nat (seq 500 33) ++ [Z.of_nat 500; Z.of_nat 532])%list
+  = Some (map (fun i => (1000 + Z.of_nat i * 100)%Z) (seq 0 33) ++ [1000; 4200]%Z)%list.
+Proof. vm_compute. reflexivity. Qed.
 
 (* non-vacuity of (3) and of te_valid *)
 Example C02_nonvacuous :
